@@ -1019,6 +1019,13 @@ func (st *e2State) classifyLoop(fn *Func, rs *ast.RangeStmt, why string, addSrc 
 				}
 				// a call statement with iteration-dependent arguments may have ordered
 				// side effects
+				if okLocal, _ := iterationLocalCall(p, fn, call, declaredInside); okLocal {
+					if st.final {
+						st.r.Add("E2.call-in-loop", fn.Name, construct+" call "+calleeFull(info, call), p.Pos(x), OK,
+							"the callee writes only through parameters, and the written arguments are variables of the iteration", true)
+					}
+					return true
+				}
 				if st.final {
 					full := calleeFull(info, call)
 					if ex := e2Exceptions[fn.Name+"|"+construct+"|call "+full]; ex != "" {
@@ -1052,20 +1059,20 @@ func (st *e2State) classifyLoop(fn *Func, rs *ast.RangeStmt, why string, addSrc 
 // tests the cursor position (a value of type hcl.Pos) against the loop element.
 func (st *e2State) positionExclusive(fn *Func, ret ast.Node, rs *ast.RangeStmt, loopVars map[types.Object]bool) bool {
 	info := fn.Info()
-	for _, f := range fn.FactsAt(ret) {
-		if f.Kind != FactCond || !f.Pol {
-			continue
+	pred := func(a *Atom) bool {
+		if a == nil || a.E == nil || !a.Pol {
+			return false
 		}
-		if f.Cond.Pos() < rs.Body.Pos() || f.Cond.End() > rs.Body.End() {
-			continue
+		if a.E.Pos() < rs.Body.Pos() || a.E.End() > rs.Body.End() {
+			return false
 		}
-		call, ok := ast.Unparen(f.Cond).(*ast.CallExpr)
+		call, ok := ast.Unparen(a.E).(*ast.CallExpr)
 		if !ok {
-			continue
+			return false
 		}
 		hasPos, hasLoopVar := false, false
-		for _, a := range call.Args {
-			if typeIs(info.TypeOf(a), "hcl/v2", "Pos") {
+		for _, arg := range call.Args {
+			if typeIs(info.TypeOf(arg), "hcl/v2", "Pos") {
 				hasPos = true
 			}
 		}
@@ -1075,11 +1082,14 @@ func (st *e2State) positionExclusive(fn *Func, ret ast.Node, rs *ast.RangeStmt, 
 			}
 			return true
 		})
-		if hasPos && hasLoopVar {
-			return true
-		}
+		return hasPos && hasLoopVar
 	}
-	return false
+	// success edge of the predicate on every path — nested `if pred {` and the de-nested
+	// `if !pred { continue }` alike
+	if fn.GuardsAt(ret).Holds(pred) {
+		return true
+	}
+	return fn.HoldsOnAllPaths(ret, pred)
 }
 
 func isVar(o types.Object) bool {
